@@ -6,6 +6,7 @@ import (
 	"go/constant"
 	"go/token"
 	"go/types"
+	"os"
 	"sort"
 	"strings"
 
@@ -446,100 +447,282 @@ func c09ArgLanguage(w *World, r *Report) {
 	}
 }
 
+// c09CheckModule (R09.5).  checkModule walks the substatements with one
+// remembered integer, the section reached so far.  Whatever the spelling — a
+// switch with one arm per section, or a table from statement kind to section
+// — one iteration is a function of (statement kind, section so far) to
+// (rejected?, section afterwards).  That function is read off the loop for
+// every statement kind and every section value by evaluating the exit and
+// go-round conditions under the finite model (kind = v, section = p), and
+// compared with RFC 6020 §7.1: a statement of section S is rejected iff a
+// later section was reached, and otherwise S becomes the section reached;
+// sections are ordered header < linkage < meta < revision < body; statements
+// of unknown (prefixed) kind are accepted anywhere and change nothing.
 func c09CheckModule(w *World, r *Report) {
-	f := w.Func("parse", "checkModule")
-	fd, p := w.FuncDecl(f)
-	names, _ := nodeTypeNames(w)
-	// the switch on c.Type()
-	var sw *ast.SwitchStmt
-	ast.Inspect(fd.Body, func(n ast.Node) bool {
-		if s, ok := n.(*ast.SwitchStmt); ok && sw == nil && s.Tag != nil {
-			sw = s
+	fn := w.Func("parse", "checkModule")
+	fd, _ := w.FuncDecl(fn)
+	f := w.SSAFunc(fn)
+	names, byName := nodeTypeNames(w)
+	if f == nil {
+		panic(undecided{"parse.checkModule"})
+	}
+	sym := NewSym(w)
+	var loop *ssaLoop
+	var prev *ssa.Phi
+	loops := ssaLoops(f)
+	for i := range loops {
+		for _, in := range loops[i].Header.Instrs {
+			if phi, ok := in.(*ssa.Phi); ok && isIntegerType(phi.Type()) && !isRangeIndexPhi(phi) {
+				loop, prev = &loops[i], phi
+			}
 		}
-		return true
-	})
-	if sw == nil {
+	}
+	if loop == nil {
 		panic(undecided{"checkModule switch"})
 	}
-	// rank constants
-	rank := func(e ast.Expr) (int64, bool) { return ConstInt(p, e) }
-	type armInfo struct {
-		kws    []string
-		guard  string
-		cmpTo  int64
-		setTo  int64
-		hasSet bool
-		def    bool
-	}
-	var arms []armInfo
-	prevObj := types.Object(nil)
-	for _, a := range switchArms(p, sw) {
-		ai := armInfo{def: a.Default}
-		for _, c := range a.Consts {
-			v, _ := intConst(c)
-			ai.kws = append(ai.kws, names[v])
+	body := loop.body()
+	// the section before the first statement
+	var initial int64
+	okInit := false
+	for i, e := range prev.Edges {
+		if !body[prev.Block().Preds[i]] {
+			initial, okInit = intConstOf(e)
 		}
-		sort.Strings(ai.kws)
-		for _, s := range a.Clause.Body {
-			switch x := s.(type) {
-			case *ast.IfStmt:
-				if be, ok := ast.Unparen(x.Cond).(*ast.BinaryExpr); ok {
-					if v, ok := rank(be.Y); ok {
-						ai.guard = be.Op.String()
-						ai.cmpTo = v
-						prevObj = objOfIdent(p, be.X)
-						// body must return an error
-						rets := returnsIn(x.Body)
-						if len(rets) != 1 || isNilIdent(p, rets[0].Results[0]) {
-							ai.guard = "no-error"
-						}
+	}
+	if !okInit {
+		panic(undecided{"checkModule: initial section"})
+	}
+	isKind := func(v ssa.Value) bool { // the statement's kind: x.Type() of the loop element
+		c, ok := v.(*ssa.Call)
+		return ok && c.Call.IsInvoke() && nm(c.Call.Method) == "Type" && len(c.Call.Args) == 0
+	}
+	type verdict struct {
+		rejected bool
+		next     int64
+	}
+	step := func(kind, sect int64) (verdict, string) {
+		var constUnder func(v ssa.Value, d int) (int64, bool)
+		var model func(a *pcAtom) (bool, bool)
+		busy := map[*ssa.Phi]bool{}
+		constUnder = func(v ssa.Value, d int) (int64, bool) {
+			for {
+				switch x := v.(type) {
+				case *ssa.ChangeType:
+					v = x.X
+					continue
+				case *ssa.Convert:
+					v = x.X
+					continue
+				}
+				break
+			}
+			if d > 6 {
+				return 0, false
+			}
+			if c, ok := intConstOf(v); ok {
+				return c, true
+			}
+			if v == ssa.Value(prev) {
+				return sect, true
+			}
+			if isKind(v) {
+				return kind, true
+			}
+			if keys, vals, idx, ok := pcTableEntries(w, v, true); ok && isKind(idx) {
+				for i, k := range keys {
+					if kv, isInt := constant.Int64Val(constant.ToInt(k)); isInt && kv == kind && vals[i] != nil {
+						return constant.Int64Val(constant.ToInt(vals[i]))
 					}
 				}
-			case *ast.AssignStmt:
-				if len(x.Rhs) == 1 {
-					if v, ok := rank(x.Rhs[0]); ok {
-						ai.setTo, ai.hasSet = v, true
+				return 0, true // absent key: the zero value
+			}
+			if phi, ok := v.(*ssa.Phi); ok && phi != prev {
+				if busy[phi] {
+					return 0, false
+				}
+				busy[phi] = true
+				defer delete(busy, phi)
+				tv, decided := sym.ValueUnder(f, phi, model, 0)
+				if !decided || tv == ssa.Value(phi) {
+					return 0, false
+				}
+				return constUnder(tv, d+1)
+			}
+			return 0, false
+		}
+		model = func(a *pcAtom) (bool, bool) {
+			if pcIsIter(a) {
+				return true, true
+			}
+			if bo, ok := a.v.(*ssa.BinOp); ok && a.subj != "" {
+				for _, side := range []ssa.Value{bo.X, bo.Y} {
+					if _, isC := side.(*ssa.Const); isC {
+						continue
+					}
+					if c, ok := constUnder(side, 0); ok {
+						return a.set.contains(c), true
 					}
 				}
 			}
+			if keys, _, idx, ok := pcTableEntries(w, a.v, false); ok && isKind(idx) {
+				for _, k := range keys {
+					if kv, isInt := constant.Int64Val(constant.ToInt(k)); isInt && kv == kind {
+						return true, true
+					}
+				}
+				return false, true
+			}
+			if (a.op == token.EQL || a.op == token.LSS) && a.x != nil && a.y != nil && isIntegerType(a.x.Type()) {
+				x, okx := constUnder(a.x, 0)
+				y, oky := constUnder(a.y, 0)
+				if okx && oky {
+					if a.op == token.EQL {
+						return x == y, true
+					}
+					return x < y, true
+				}
+			}
+			return false, false
 		}
-		arms = append(arms, ai)
-	}
-	_ = prevObj
-	// expected: unknown (no-op), header (!= 0), linkage (> 1; =1), meta (> 2; =2), revision (> 3; =3), default (> 4; =4)
-	find := func(kws []string) *armInfo {
-		want := append([]string{}, kws...)
-		sort.Strings(want)
-		for i := range arms {
-			if strings.Join(arms[i].kws, ",") == strings.Join(want, ",") && !arms[i].def {
-				return &arms[i]
+		// rejected: an exit of the iteration that returns an error
+		rejected, nOut := false, 0
+		for _, b := range f.Blocks {
+			ret, ok := b.Instrs[len(b.Instrs)-1].(*ssa.Return)
+			if !ok || len(ret.Results) != 1 || isNilConst(ret.Results[0]) {
+				continue
+			}
+			if !(body[b] || (loop.Header.Dominates(b) && reachesLatchFree(b, *loop))) {
+				continue
+			}
+			hit, decided := pcEvalFree(sym.PathCond(loop.Header, b, nil), model)
+			if !decided && os.Getenv("YV_DEBUG") != "" {
+				for _, a := range sym.PathCond(loop.Header, b, nil).atoms() {
+					if _, known := model(a); !known {
+						fmt.Printf("DEBUG R09.5 unknown atom: %s %T %v\n", a.key, a.v, a.v)
+					}
+				}
+			}
+			if !decided {
+				return verdict{}, "whether the statement is rejected depends on more than its kind and the section reached"
+			}
+			if hit {
+				rejected = true
+				nOut++
 			}
 		}
-		return nil
+		var next int64
+		for _, lt := range loop.Latches {
+			hit, decided := pcEvalFree(sym.RoundCond(loop.Header, lt, nil), model)
+			if !decided {
+				return verdict{}, "whether the scan goes on depends on more than the statement's kind and the section reached"
+			}
+			if !hit {
+				continue
+			}
+			nOut++
+			nv, ok := constUnder(phiEdge(prev, lt), 0)
+			if !ok {
+				return verdict{}, "the section remembered afterwards is not a function of the statement's kind and the section reached"
+			}
+			next = nv
+		}
+		if nOut != 1 {
+			return verdict{}, fmt.Sprintf("%d ways out of one iteration are taken at once", nOut)
+		}
+		return verdict{rejected, next}, ""
 	}
-	hdr := find(rfcSections["header"])
-	r.Check(hdr != nil && hdr.guard == "!=" && hdr.cmpTo == 0 && !hdr.hasSet, "R09.5", "checkModule header arm", fd.Pos(),
-		"{yang-version,namespace,prefix,belongs-to}: rejected unless still in the header", "header statements are not exactly {yang-version,namespace,prefix,belongs-to}, or are no longer rejected after another section has started")
-	prevRank := int64(0)
+	// the section of every statement kind, as RFC 6020 has it
+	sectionOf := map[int64]string{}
+	for sec, kws := range rfcSections {
+		for _, kw := range kws {
+			for _, v := range byName[kw] {
+				sectionOf[v] = sec
+			}
+		}
+	}
+	var kinds []int64
+	for v := range names {
+		kinds = append(kinds, v)
+	}
+	sort.Slice(kinds, func(i, j int) bool { return kinds[i] < kinds[j] })
+	unknown := byName["unknown"]
+	isUnknown := func(v int64) bool {
+		for _, u := range unknown {
+			if u == v {
+				return true
+			}
+		}
+		return false
+	}
+	// the rank each section gets: the section remembered after one of its statements is met first
+	order := []string{"header", "linkage", "meta", "revision", "body"}
+	rank := map[string]int64{}
+	problems := map[string]string{}
+	for _, v := range kinds {
+		if isUnknown(v) {
+			continue
+		}
+		sec := sectionOf[v]
+		if sec == "" {
+			sec = "body"
+		}
+		vd, why := step(v, initial)
+		switch {
+		case why != "":
+			problems[sec] = "'" + names[v] + "': " + why
+		case vd.rejected:
+			problems[sec] = "'" + names[v] + "' is rejected as the first statement of a module"
+		default:
+			if old, seen := rank[sec]; seen && old != vd.next {
+				problems[sec] = "'" + names[v] + "' does not lead to the same section as the other " + sec + " statements"
+			}
+			rank[sec] = vd.next
+		}
+	}
+	for i, sec := range order {
+		if i > 0 && problems[sec] == "" && problems[order[i-1]] == "" && rank[sec] <= rank[order[i-1]] {
+			problems[sec] = "the " + sec + " section does not rank above the " + order[i-1] + " section"
+		}
+	}
+	if rank["header"] != initial && problems["header"] == "" {
+		problems["header"] = "a header statement moves the section on"
+	}
+	// every statement kind against every section reached
+	for _, v := range kinds {
+		sec := sectionOf[v]
+		if sec == "" {
+			sec = "body"
+		}
+		for _, from := range order {
+			p := rank[from]
+			vd, why := step(v, p)
+			switch {
+			case why != "":
+				if isUnknown(v) {
+					problems["extension"] = why
+				} else if problems[sec] == "" {
+					problems[sec] = "'" + names[v] + "': " + why
+				}
+			case isUnknown(v):
+				if vd.rejected || vd.next != p {
+					problems["extension"] = "an extension statement is rejected or moves the section (after " + from + ")"
+				}
+			case problems[sec] != "":
+			case vd.rejected != (p > rank[sec]):
+				problems[sec] = fmt.Sprintf("'%s' after a %s statement: rejected=%v, RFC 6020 says %v", names[v], from, vd.rejected, p > rank[sec])
+			case !vd.rejected && vd.next != rank[sec]:
+				problems[sec] = fmt.Sprintf("'%s' after a %s statement does not leave the section at %s", names[v], from, sec)
+			}
+		}
+	}
+	r.Check(problems["header"] == "", "R09.5", "checkModule header arm", fd.Pos(),
+		"{yang-version,namespace,prefix,belongs-to}: rejected unless still in the header", "header statements are not exactly {yang-version,namespace,prefix,belongs-to}, or are no longer rejected after another section has started: "+problems["header"])
 	for _, sec := range []string{"linkage", "meta", "revision"} {
-		a := find(rfcSections[sec])
-		ok := a != nil && a.guard == ">" && a.hasSet && a.cmpTo == a.setTo && a.setTo > prevRank
-		r.Check(ok, "R09.5", "checkModule "+sec+" arm", fd.Pos(), fmt.Sprintf("{%s}: reject if prev > own rank, then prev = own rank", strings.Join(rfcSections[sec], ",")),
-			"section '"+sec+"' must be exactly {"+strings.Join(rfcSections[sec], ",")+"}, reject when a later section was seen (prev > rank) and then raise prev to its own, strictly larger, rank")
-		if a != nil {
-			prevRank = a.setTo
-		}
+		r.Check(problems[sec] == "", "R09.5", "checkModule "+sec+" arm", fd.Pos(), fmt.Sprintf("{%s}: reject if prev > own rank, then prev = own rank", strings.Join(rfcSections[sec], ",")),
+			"section '"+sec+"' must be exactly {"+strings.Join(rfcSections[sec], ",")+"}, reject when a later section was seen (prev > rank) and then raise prev to its own, strictly larger, rank: "+problems[sec])
 	}
-	var def *armInfo
-	for i := range arms {
-		if arms[i].def {
-			def = &arms[i]
-		}
-	}
-	r.Check(def != nil && def.hasSet && def.setTo > prevRank, "R09.5", "checkModule body arm", fd.Pos(), "default arm is the body section with the highest rank", "the default (body) arm must set the highest rank")
-	// unknown statements are transparent
-	unk := find([]string{"unknown"})
-	r.Check(unk != nil && unk.guard == "" && !unk.hasSet, "R09.5", "checkModule extension arm", fd.Pos(), "prefixed extension statements do not move the section", "extension statements must be accepted anywhere without affecting the section state")
+	r.Check(problems["body"] == "", "R09.5", "checkModule body arm", fd.Pos(), "default arm is the body section with the highest rank", "the default (body) arm must set the highest rank: "+problems["body"])
+	r.Check(problems["extension"] == "", "R09.5", "checkModule extension arm", fd.Pos(), "prefixed extension statements do not move the section", "extension statements must be accepted anywhere without affecting the section state: "+problems["extension"])
 }
 
 func c09RevisionOrder(w *World, r *Report) {
